@@ -17,6 +17,7 @@ import (
 	"fmt"
 	"hash"
 	"strings"
+	"sync"
 	"testing"
 	"time"
 
@@ -40,7 +41,6 @@ func TestMain(m *testing.M) {
 // statement ("test level: 8"); it is deliberately NOT read from the library.
 const (
 	testInterval = 8
-	kfHmacLimit  = "KF-C17-hmac-request-limit"
 	sentinel     = 0xA5
 )
 
@@ -256,13 +256,12 @@ type expect struct {
 
 // modelTranscript runs the whole history through the model first, so that the
 // library run afterwards is as short as possible (GM mode has a wall-clock rule).
-func modelTranscript(c seqCase, m mechSpec, interval uint64, lenient bool) (errClass, []expect) {
+func modelTranscript(c seqCase, m mechSpec, interval uint64) (errClass, []expect) {
 	ent, nonce, pers := c.instInputs()
 	d, iec := newRef(m, c.GM, interval, ent, nonce, pers)
 	if iec != eOK {
 		return iec, nil
 	}
-	d.hmacNoLimit = lenient
 	exps := make([]expect, len(c.Ops))
 	for i, o := range c.Ops {
 		entropy, addl := c.opInputs(i)
@@ -369,32 +368,13 @@ func clockGuard(level string) time.Duration {
 	return ti / 2
 }
 
-func hasOverMax(c seqCase, m mechSpec) bool {
-	for _, o := range c.Ops {
-		if o.K == "gen" && o.N > m.maxRequest(c.GM) {
-			return true
-		}
-	}
-	return false
-}
-
 func checkSeq(c seqCase, r *h.Rec) error {
-	m := mechByName(c.Mech)
-	err := runSeq(c, m, r, false)
-	if err != nil && m.Kind == "hmac" && hasOverMax(c, m) {
-		// Known-finding protocol: a second, bug-compatible model (HMAC Generate
-		// does not enforce MaxBytesPerRequest). Everything else in the history
-		// is still compared exactly.
-		if err2 := runSeq(c, m, &h.Rec{}, true); err2 == nil && r.Known(kfHmacLimit) {
-			return nil
-		}
-	}
-	return err
+	return runSeq(c, mechByName(c.Mech), r)
 }
 
-func runSeq(c seqCase, m mechSpec, r *h.Rec, lenient bool) error {
+func runSeq(c seqCase, m mechSpec, r *h.Rec) error {
 	lvl, interval, _ := libLevel(c.Level)
-	iec, exps := modelTranscript(c, m, interval, lenient)
+	iec, exps := modelTranscript(c, m, interval)
 	classifySeq(c, m, iec, exps, r)
 
 	ent, nonce, pers := c.instInputs()
@@ -626,7 +606,7 @@ func TestC17_Boundary(t *testing.T) {
 					if bit(2) {
 						ra = 33
 					}
-					g(16%(m.maxRequest(gm)+1), ra)
+					g(16, ra) // 16 <= every mode's maximum request
 					if bit(3) {
 						g(over[0], ra) // refused AND too long: still the reseed-required error
 						g(0, 0)
@@ -727,6 +707,17 @@ func TestC17_Levels(t *testing.T) {
 
 // ---------------------------------------------------------------- input-length caps
 
+var (
+	bigOnce sync.Once
+	bigBuf  []byte
+)
+
+// bigZeros: 2^27 zero bytes, allocated once and never written.
+func bigZeros() []byte {
+	bigOnce.Do(func() { bigBuf = make([]byte, maxInputBytes) })
+	return bigBuf
+}
+
 type capCase struct {
 	Mech  string
 	GM    bool
@@ -753,7 +744,7 @@ func TestC17_InputCaps(t *testing.T) {
 		r.Label("cap-" + c.Which)
 		r.NT()
 		m := mechByName(c.Mech)
-		big := make([]byte, maxInputBytes) // never written: untouched zero pages
+		big := bigZeros()
 		ent := gen.Fill(1, 2*m.minEntropyInstantiate(true))
 		nonce := gen.Fill(2, 2*m.minNonce(true))
 		var pers []byte
